@@ -144,6 +144,13 @@ class World:
         self.root = build(spec)
         self.number(self.root)
 
+    @classmethod
+    def from_loop(cls, loop):
+        w = cls.__new__(cls)
+        w.uids, w.keep, w.next, w.stash, w.root = {}, [], 0, [], loop
+        w.number(loop)
+        return w
+
     def number(self, node):
         """give uids to unseen objects in depth-first pre-order"""
         if id(node) not in self.uids:
@@ -193,6 +200,62 @@ def recomputed_body(node) -> F:
     if len(node) == 0:
         return core.to_frac(node._waveform.duration) if node._waveform is not None else F(0)
     return sum((recomputed_body(c) * int(c.repetition_count) for c in node), F(0))
+
+
+def rebuild(node, empty, tweak=None):
+    """A freshly constructed program with the same structure, counts (the very same repetition definitions),
+    waveforms and measurements; 'no measurements' is written as `empty` (None or []).  `tweak = (k, how)` changes
+    the k-th node (pre-order) in one respect: a near miss."""
+    q = Q()
+    counter = [0]
+
+    def go(n):
+        k = counter[0]
+        counter[0] += 1
+        meas = list(n._measurements) if n._measurements else (None if empty is None else [])
+        rep = n._repetition_definition
+        wf = n._waveform
+        extra = []
+        if tweak is not None and tweak[0] == k:
+            how = tweak[1]
+            if how == 'count':
+                rep = n.repetition_count + 1
+            elif how == 'waveform':
+                wf = mk_wf((3, F(7), True, False)) if (wf is None or wf_desc(wf) != (3, F(7), True, False)) \
+                    else mk_wf((2, F(7), True, False))
+            elif how == 'measurement':
+                meas = list(meas or []) + [('m7', 0, 1)]
+            else:
+                extra = [q.Loop(waveform=mk_wf((1, F(1), True, False)))]
+        kids = [go(c) for c in n]
+        return q.Loop(children=kids + extra, waveform=wf, measurements=meas, repetition_count=rep)
+    return go(node)
+
+
+def equality_predicates(world: World, salt: int = 0):
+    """`Loop.__eq__` is decided by structure, counts, waveforms and measurements only: the program equals its own
+    copy and a fresh construction of the same content (however 'no measurements' is spelled), and differs from
+    near misses.  Evaluated on the implementation; nothing is mutated."""
+    root = world.root
+    try:
+        copy = root.copy_tree_structure()
+        if not (root == copy) or (root != copy):
+            return 'the program does not compare equal to its own copy_tree_structure()'
+        # both spellings of 'no measurements' within any two consecutive steps (one fresh construction per step)
+        for empty in ((None,) if salt % 2 else ([],)):
+            twin = rebuild(root, empty)
+            if not ((twin == root) if empty is None else (root == twin)):
+                return ('the program does not compare equal to a freshly constructed program with the same structure, '
+                        'counts, waveforms and measurements (no measurements written as %r)' % (empty,))
+        size = sum(1 for _ in world.nodes())
+        how = ('count', 'waveform', 'measurement', 'child')[salt % 4]
+        k = (salt // 4) % size
+        near = rebuild(root, None, (k, how))
+        if (root == near) if salt % 2 else (near == root):
+            return 'the program compares equal to a program whose node %d differs in its %s' % (k, how)
+    except Exception as e:  # noqa
+        return 'comparing the program raised %s' % type(e).__name__
+    return None
 
 
 def direct_predicates(world: World, locations: bool = True):
@@ -351,6 +414,16 @@ def exec_op(world: World, op):
         lean = ['roll', pl, op[2], op[3], sr]
         thunk = lambda: q.roll_constant_waveforms(node, op[2], op[3],
                                                   q.TimeType.from_fraction(sr.numerator, sr.denominator))
+    elif name == 'addmeas':
+        ms = [('m%d' % n, _num(b), _num(l)) for n, b, l in op[2]]
+        how = op[3] if len(op) > 3 else 'list'
+        lean = ['addmeas', pl, [['m', n, F(b), F(l)] for n, b, l in op[2]]]
+
+        def thunk():
+            node.add_measurements(iter(ms) if how == 'iter' else (tuple(ms) if how == 'tuple' else list(ms)))
+    elif name == 'dropmeas':
+        lean = ['dropmeas', pl]
+        thunk = lambda: node.get_measurement_windows(drop=True)
     elif name == 'copy':
         lean = ['copy', pl, bool(op[2])]
 
@@ -375,6 +448,9 @@ def exec_op(world: World, op):
     after = {id(n) for _p, n in world.nodes()}
     gone = [n for i, n in before.items() if i not in after]
     gone_ids = {id(n) for n in gone}
+    # `_merge_single_child` hands the child's measurement LIST OBJECT to the parent (and extends it in place): a
+    # removed node that shares its list with a node of the tree is not an independent program any more
+    live_lists = {id(m._measurements) for _p, m in world.nodes() if m._measurements is not None}
     for n in gone:
         par = n.parent
         if par is not None and id(par) in gone_ids and any(c is n for c in par):
@@ -382,6 +458,8 @@ def exec_op(world: World, op):
         sub = [m for _p, m in world.nodes(n)]
         if any(id(m) in after for m in sub) or len(sub) != len({id(m) for m in sub}):
             continue        # gutted by _merge_single_child / shares nodes with the tree
+        if any(m._measurements is not None and id(m._measurements) in live_lists for m in sub):
+            continue        # shares a measurement list object with the tree
         if all(c.parent is m for m in sub for c in m) and len(world.stash) < 6:
             world.stash.append(n)
     if out is not None and len(world.stash) < 6:
@@ -397,6 +475,23 @@ def _vol_nested(node, above: bool) -> bool:
     return any(_vol_nested(c, above or vol) for c in node)
 
 
+def _dropmeas_ok(node):
+    """(ok, has measurements): collecting windows below a count <= 0 raises ValueError in numpy half-way through
+    (window arithmetic, C02's business) - not generated"""
+    has = len(node._measurements or ())
+    ok = True
+    for c in node:
+        o, h = _dropmeas_ok(c)
+        ok = ok and o
+        has = has + h
+    if has and node.repetition_count <= 0:
+        ok = False
+    has = has * max(node.repetition_count, 0)      # windows are materialised once per repetition (numpy.tile)
+    if has > 20000:
+        ok = False
+    return ok, has
+
+
 def applicable_pre(world: World, op) -> bool:
     """`Pre` of the model plus the input classes left to other findings (see notes/C09.md)."""
     name, path = op[0], op[1]
@@ -408,9 +503,21 @@ def applicable_pre(world: World, op) -> bool:
     if name in ('roll', 'cleanup'):
         if name == 'cleanup' and op[3] and _vol_nested(node, False):
             return False                          # cleanup would merge two volatile counts (PF-07/08)
+        if name == 'cleanup' and op[3]:
+            sub = [n for _p, n in world.nodes(node)]
+            if any(n.volatile_repetition for n in sub) and any(n.repetition_count < 0 and not n.volatile_repetition for n in sub):
+                return False                      # could multiply a volatile expression by a negative count
         return all(not (n._waveform is not None and len(n) > 0) for _p, n in world.nodes(node))
+    if name == 'dropmeas':
+        return _dropmeas_ok(node)[0]
     if name == 'merge':
-        return not (len(node) == 1 and node.volatile_repetition and node[0].volatile_repetition)  # PF-07/08
+        if len(node) == 1:
+            a, b = bool(node.volatile_repetition), bool(node[0].volatile_repetition)
+            if a and b:
+                return False                      # PF-07/08
+            if (a and node[0].repetition_count < 0) or (b and node.repetition_count < 0):
+                return False                      # volatile expression times a negative count, see notes
+        return True
     return True
 
 
@@ -475,7 +582,7 @@ def rand_arg(rng, world):
     return fresh_arg(rng)
 
 
-OPS = ['query', 'query', 'query', 'append', 'append', 'setitem', 'setslice', 'setslice', 'setwf', 'setrep', 'setrep',
+OPS = ['addmeas', 'addmeas', 'dropmeas', 'query', 'query', 'query', 'append', 'append', 'setitem', 'setslice', 'setslice', 'setwf', 'setrep', 'setrep',
        'unroll', 'unrollchildren', 'split', 'split', 'encapsulate', 'merge', 'cleanup', 'reverse', 'roll', 'copy']
 
 
@@ -491,6 +598,12 @@ def rand_op(rng, world: World, max_nodes=70):
         bad = rng.random() < 0.06                      # malformed stream: error paths
         if name == 'query':
             op = ['query', path]
+        elif name == 'addmeas':
+            batch = [] if rng.random() < 0.45 else \
+                [[rng.randrange(3), F(rng.randrange(0, 9), 4), F(rng.randrange(1, 9), 4)] for _ in range(rng.randrange(1, 3))]
+            op = ['addmeas', path, batch, rng.choice(['list', 'iter', 'tuple'])]
+        elif name == 'dropmeas':
+            op = ['dropmeas', path]
         elif name == 'append':
             if size > max_nodes:
                 continue
@@ -594,6 +707,8 @@ ALPHABET_EXTRA = [
     ['setslice', [], 0, None, 2, [_LEAF]], ['setslice', [], 1, 1, None, [_LEAF, _LEAF]],
     ['unroll', [0, 0]], ['split', [0], 0], ['query', [1]], ['reverse', [0]],
     ['setslice', [0], None, None, None, []], ['setrep', [], 0, 'count'],
+    ['addmeas', [], [[1, F(1, 2), F(1)]], 'iter'], ['addmeas', [0, 0], [], 'iter'], ['dropmeas', [0]],
+    ['addmeas', [1], [], 'list'], ['dropmeas', []],
 ]
 
 
@@ -609,7 +724,7 @@ def run_history(init_spec, ops=None, rng=None, length=0, probe_every=True):
     init_dump = world.dump(world.root)
     next0 = world.next
     rec = {'init': init_spec, 'ops': [], 'lean_ops': [], 'dumps': [], 'errs': [], 'direct': [], 'kinds': []}
-    rec['direct0'] = direct_predicates(world)
+    rec['direct0'] = direct_predicates(world) or equality_predicates(world)
     steps = ops if ops is not None else range(length)
     for item in steps:
         op = item if ops is not None else rand_op(rng, world)
@@ -623,7 +738,8 @@ def run_history(init_spec, ops=None, rng=None, length=0, probe_every=True):
         rec['lean_ops'].append(lean)
         rec['errs'].append(err)
         rec['dumps'].append([world.dump(world.root), '-' if out is None else world.dump(out)])
-        rec['direct'].append(direct_predicates(world) if probe_every else None)
+        rec['direct'].append((direct_predicates(world) or equality_predicates(world, len(rec['ops']) * 7 + world.next))
+                             if probe_every else None)
         rec['kinds'].append(op[0])
     rec['line'] = sx(['c09', 'check', init_dump, next0, rec['lean_ops'], rec['dumps']])
     rec['size'] = sum(1 for _ in world.nodes())
@@ -821,7 +937,8 @@ def _account(ctx, items, family):
         if res['violation']:
             k, what = res['violation']
             sig = (it['ops'][k][0] if k >= 0 else 'init',
-                   'cache' if ('cached-duration' in what or 'reports duration' in what) else 'links')
+                   'cache' if ('cached-duration' in what or 'reports duration' in what) else
+                   'eq' if 'compare' in what or 'comparing' in what else 'links')
         if res['violation'] and sig not in seen and len(seen) < 12:
             seen.add(sig)
             init, ops = it['init'], it['ops'][:k + 1]
@@ -944,7 +1061,7 @@ def _check_beside(ctx, n):
             d = x.copy_tree_structure(new_parent=None)
         else:
             par = x.parent
-            k = list(par).index(x)
+            k = next(j for j, c in enumerate(par) if c is x)      # identity, not Loop.__eq__
             par[k:k + 1] = []
             d = x
             main.duration
@@ -1020,6 +1137,39 @@ def _check_beside(ctx, n):
                 ctx.count('beside:original-tree-cache-differs-from-model')
 
 
+def _check_created_programs(ctx):
+    """Programs as the LoopBuilder makes them (a repetition hands an empty measurement list to
+    `add_measurements`): bookkeeping, equality with the copy / a fresh construction, judged by Lean too."""
+    from qupulse.pulses import ConstantPT, RepetitionPT, SequencePT, ForLoopPT, TimeReversalPT
+    c1, c2 = ConstantPT(8, {'A': .5}), ConstantPT(4, {'A': .25})
+    pts = {
+        'top-level repetition': RepetitionPT(c1, 3),
+        'sequence with repetition': SequencePT(c2, RepetitionPT(c1, 3)),
+        'nested repetitions': RepetitionPT(SequencePT(RepetitionPT(c1, 2), c2), 2),
+        'repetition with measurements': RepetitionPT(c1, 3, measurements=[('m1', 0, 1)]),
+        'sequence with measurements': SequencePT(c2, RepetitionPT(c1, 2), measurements=[('m2', 1, 2)]),
+        'for loop': ForLoopPT(SequencePT(ConstantPT('4 + 4*i', {'A': .25}), RepetitionPT(c1, 2)), 'i', 3),
+        'reversed': TimeReversalPT(SequencePT(c2, RepetitionPT(c1, 2))),
+    }
+    lines, names = [], []
+    for name, pt in pts.items():
+        program = pt.create_program()
+        for variant, prog in (('created', program), ('copy', program.copy_tree_structure())):
+            w = World.from_loop(prog)
+            bad = direct_predicates(w) or equality_predicates(w, len(name))
+            ctx.case('created-program:%s:%s' % (name, variant))
+            ctx.count('created-programs')
+            if bad:
+                ctx.violation('program created from a pulse template (%s, %s): %s' % (name, variant, bad),
+                              {'kind': 'created-program', 'template': name})
+            lines.append(sx(['c09', 'judge', w.dump(prog)]))
+            names.append((name, variant))
+    for (name, variant), ans in zip(names, core.Lean.run(lines)):
+        if ans != ['ok']:
+            ctx.violation('program created from a pulse template (%s, %s) judged %s' % (name, variant, sx(ans)),
+                          {'kind': 'created-program', 'template': name})
+
+
 def _known_findings(ctx):
     listed = {kf.get('finding') for kf in ctx.findings.for_property(PID)}
     rep, want = pf_c09_2_witness()
@@ -1054,7 +1204,10 @@ def run(ctx: core.Ctx):
     ctx.assumptions = [
         'waveforms are abstracted to (kind, duration, constant?, reversed?) records; durations are exact TimeType rationals',
         'smallest_factor_ge (sympy divisors) is modelled by its specification: the least divisor >= min_factor',
-        'input classes not generated: merging two volatile counts, directly or inside cleanup (PF-07/08), nodes carrying a '
+        'a volatile count is an expression: count*(-1)*(-1) evaluates to count, the model clamps after every factor; merges '
+        'of a volatile count with a NEGATIVE integer count are not generated',
+        'input classes not generated: get_measurement_windows(drop=True) over measurements below a count <= 0 (numpy '
+        'raises ValueError half-way) or producing more than 20000 windows (MemoryError with counts of 10^6), merging two volatile counts, directly or inside cleanup (PF-07/08), nodes carrying a '
         'waveform AND children for append_child / cleanup / roll_constant_waveforms (class docstring: either a waveform or children)',
         'operations address nodes of ONE tree whose root has no parent pointer; editing detached nodes / copies that still '
         'point to a former parent is the open finding PF-C09-2',
@@ -1090,6 +1243,7 @@ def run(ctx: core.Ctx):
     ctx.extra.pop('_violation_signatures', None)
     _check_eq(ctx, ctx.n(600, 10000))
     _check_beside(ctx, ctx.n(300, 6000))
+    _check_created_programs(ctx)
     tot = ctx.counters.get('steps-identical-to-model', 0) + ctx.counters.get(
         'steps-soft-difference(uid/cache-presence/stale fields of detached nodes)', 0)
     ctx.extra['structural_agreement'] = '%d of %d compared steps identical in every field (uids, caches, positions, parents)' % (
@@ -1111,6 +1265,8 @@ def replay(ctx: core.Ctx, rec: dict, from_corpus: bool = False) -> bool:
             ctx.drift('corpus history vs QP.C09.applyR', rec.get('_file'), res['drift'][1], '')
     elif kind == 'pf-c09-2':
         _known_findings(ctx)
+    elif kind == 'created-program':
+        _check_created_programs(ctx)
     elif kind == 'beside':
         # the two-tree stream is deterministic given the seed: re-run it at the recorded seed / tier
         sub = core.Ctx(ctx.pid, rec.get('tier', 'quick'), rec.get('seed', 0))
